@@ -424,7 +424,11 @@ func R6(pkgs ...string) func(p *core.Prog) *core.Result {
 				lenTerminator(p, r, es, named)
 			}
 		}
-		r.Floor("event_methods", methods, 30)
+		minMethods := 30
+		if len(want) == 1 && want["visitors"] {
+			minMethods = 20
+		}
+		r.Floor("event_methods", methods, minMethods)
 		return r
 	}
 }
